@@ -124,50 +124,50 @@ theorem enter_post (s : DrvState) (hw : s.Wf) (hs : ShadowOk s.d) (hr : RadioSha
   unfold enter enterPipe setPayloadLength
   exec_simp [getPipes, Int.cast_ofNat_Int, Int.zero_le_ofNat, Int.reduceLE, Int.reduceToNat, exec_regWriteBytes,
     Nat.reduceAdd, Nat.reduceSub]
-  rw [exec_regWrite_nat _ _ _ (Nat.lt_trans (bits_or2 _ h1) (by decide)) (by decide)]
+  rw [exec_regWrite_nat3 _ _ _ (Nat.lt_trans (bits_or2 _ h1) (by decide)) (by decide)]
   exec_simp []
-  rw [exec_regWrite_nat _ _ _ h2 (by decide)]
+  rw [exec_regWrite_nat3 _ _ _ h2 (by decide)]
   exec_simp []
-  rw [exec_regWrite_nat _ _ _ (by omega) (by decide)]
+  rw [exec_regWrite_nat3 _ _ _ (by omega) (by decide)]
   exec_simp []
-  rw [exec_regWrite_nat _ _ _ (by omega) (by decide)]
+  rw [exec_regWrite_nat3 _ _ _ (by omega) (by decide)]
   exec_simp []
-  rw [exec_regWrite_nat _ _ _ (by omega) (by decide)]
+  rw [exec_regWrite_nat3 _ _ _ (by omega) (by decide)]
   exec_simp []
-  rw [exec_regWrite_nat _ _ _ (by omega) (by decide)]
+  rw [exec_regWrite_nat3 _ _ _ (by omega) (by decide)]
   exec_simp []
-  rw [exec_regWrite_nat _ _ _ (by omega) (by decide)]
+  rw [exec_regWrite_nat3 _ _ _ (by omega) (by decide)]
   exec_simp []
-  rw [exec_regWrite_nat _ _ _ (hcl _) (by decide)]
+  rw [exec_regWrite_nat3 _ _ _ (hcl _) (by decide)]
   exec_simp []
-  rw [exec_regWrite_nat _ _ _ (hcl _) (by decide)]
+  rw [exec_regWrite_nat3 _ _ _ (hcl _) (by decide)]
   exec_simp []
-  rw [exec_regWrite_nat _ _ _ (hn _) (by decide)]
+  rw [exec_regWrite_nat3 _ _ _ (hn _) (by decide)]
   exec_simp []
-  rw [exec_regWrite_nat _ _ _ (hcl _) (by decide)]
+  rw [exec_regWrite_nat3 _ _ _ (hcl _) (by decide)]
   exec_simp []
-  rw [exec_regWrite_nat _ _ _ (hn _) (by decide)]
+  rw [exec_regWrite_nat3 _ _ _ (hn _) (by decide)]
   exec_simp []
-  rw [exec_regWrite_nat _ _ _ (hcl _) (by decide)]
+  rw [exec_regWrite_nat3 _ _ _ (hcl _) (by decide)]
   exec_simp []
-  rw [exec_regWrite_nat _ _ _ (hn _) (by decide)]
+  rw [exec_regWrite_nat3 _ _ _ (hn _) (by decide)]
   exec_simp []
-  rw [exec_regWrite_nat _ _ _ (hcl _) (by decide)]
+  rw [exec_regWrite_nat3 _ _ _ (hcl _) (by decide)]
   exec_simp []
-  rw [exec_regWrite_nat _ _ _ (hn _) (by decide)]
+  rw [exec_regWrite_nat3 _ _ _ (hn _) (by decide)]
   exec_simp []
-  rw [exec_regWrite_nat _ _ _ (hcl _) (by decide)]
+  rw [exec_regWrite_nat3 _ _ _ (hcl _) (by decide)]
   exec_simp [exec_regWriteBytes]
-  rw [exec_regWrite_nat _ _ _ (by omega) (by decide)]
+  rw [exec_regWrite_nat3 _ _ _ (by omega) (by decide)]
   exec_simp []
-  rw [exec_regWrite_nat _ _ _ (by omega) (by decide)]
+  rw [exec_regWrite_nat3 _ _ _ (by omega) (by decide)]
   have hclamp : ∀ x : Nat, 1 ≤ (max 1 (min 32 (x : Int))).toNat ∧ (max 1 (min 32 (x : Int))).toNat ≤ 32 := by
     intro x; omega
   obtain ⟨p0, p1, p2, p3, p4, p5, hpl⟩ := list6 hs.plLen
   obtain ⟨q0, q1, q2, q3, q4, q5, hpw⟩ := list6 hr.pw
   obtain ⟨n0, n1, n2, n3, hpn⟩ := list4 hs.pipesN.1
   obtain ⟨m0, m1, m2, m3, hrn⟩ := list4 hr.aN
-  refine Post.of_reach (by reach hw) hw ?_ (by simp only [spiStep_d', modShadow_d, ceStep_d, sleepStep_d]) ?_
+  refine Post.of_reach (by reach hw) hw ?_ (by simp only [spiStep_d3', modShadow_d, ceStep_d3, sleepStep_d3]) ?_
   · have hvis' : (s.cfg.plus || s.cfg.activated) = true := hvis
     rw [Radio.w_config _ _ (bits_or2 _ h1) (.inl rfl)]
     simp only [Radio.w_rfSetup _ _ (bits_bf _ h2 hs.rfSetup.2),
@@ -191,7 +191,7 @@ theorem enter_post (s : DrvState) (hw : s.Wf) (hs : ShadowOk s.d) (hr : RadioSha
     · rw [Radio.w_setupAw _ _ (by omega) (by omega)]
       simp only [hpl, hpn, List.map, h2', ↓reduceIte, List.append_nil, List.getD_cons_zero, List.getD_cons_succ]
       rfl
-  · constructor <;> simp only [spiStep_d', modShadow_d, ceStep_d, enterCfg]
+  · constructor <;> simp only [spiStep_d3', modShadow_d, ceStep_d3, enterCfg]
     · omega
     · simp only [hpl, List.set_cons_zero, List.set_cons_succ, List.getD_cons_zero, List.getD_cons_succ, clampNat,
         List.map]
@@ -217,7 +217,7 @@ theorem exit_post (s : DrvState) (h : Inv s) :
   have hb := bits_pwr_off _ h.ok.config
   unfold Rf24.exit
   exec_simp [h.cached.config, hb.1]
-  rw [exec_regWrite_nat _ _ _ (by omega) (by decide)]
+  rw [exec_regWrite_nat3 _ _ _ (by omega) (by decide)]
   exec_simp []
   refine Post.of_reach (by reach h.wf) h.wf ?_ rfl ?_
   · rw [Radio.w_config _ _ hb.2.1 (.inl rfl)]; rfl
